@@ -452,11 +452,23 @@ class QvmCpu:
                self.cur_frame.stmt_stack_size is not None:
                 del self.stack[self.cur_frame.stmt_stack_size:]
             if self.trap_target == 'next':
-                self._exec_errresn()
+                try:
+                    self._exec_errresn()
+                except Trapped as e:
+                    # cannot resume (no debug info, or the failing
+                    # address belongs to no statement): report that
+                    # as an unhandled error instead of letting the
+                    # exception escape from the machine.
+                    code = e.trap_code
+                    kwargs = e.trap_kwargs
+                    self.last_trap = code
+                    self.last_trap_kwargs = kwargs
+                else:
+                    return
             else:
                 self.pc = self.trap_target
                 self.error_handler_active = True
-            return
+                return
 
         if code == TrapCode.INVALID_OP_CODE:
             op_code = kwargs['op_code']
